@@ -201,6 +201,14 @@ def check_paths_and_tools(run: lib.Run, audit: dict, scale: int = 1):
     for _ in range(n):
         base = gen.gen_policyset(r, False, r.random() < 0.2) if r.random() < 0.35 else gen.gen_policy(r, False, r.random() < 0.2)
         docs.append(c06.mutate(r, base) if r.random() < 0.45 else base)
+        if r.random() < 0.3:
+            # right after a document, its bool↔number twin (equal under ==, another JSON typing): a verdict is about the document
+            # at hand, not about one that compared equal to it earlier in the process
+            tw = c06.bool_number_twin(r, docs[-1])
+            if tw is not None:
+                docs.append(tw)
+    for a, b in c06.twin_pairs():
+        docs += [a, b] if r.random() < 0.5 else [b, a, b]
     cli_cases = []
     with tempfile.TemporaryDirectory() as tmp:
         for doc in docs:
